@@ -320,7 +320,7 @@ Qed.
 
 Theorem step_Inv maxcount streams s l : Inv streams s -> Inv streams (step maxcount streams s l).
 Proof.
-  intros I. pose proof I as [A [C B]]. destruct l as [k wfail pfail|k fail|task|task|task|]; cbn [step].
+  intros I. pose proof I as [A [C B]]. destruct l as [k big wfail pfail|k fail|task|task|task|]; cbn [step].
   - (* Feed *)
     destruct (nth_error streams k) as [sm|] eqn:Hk; [|exact I].
     set (i := next_of s k). set (c := cons_of s (s_ch sm)).
@@ -344,7 +344,7 @@ Proof.
           destruct (Pre j ltac:(lia)) as [X|X]; [left; exact X|right; apply in_or_app; left; exact X].
         - assert (Al' : c_alive (cons_of s (s_ch sm')) = true) by (rewrite Ech; exact Al).
           destruct (B k' sm' Hk' Hr' Al' j Lj) as [X|X]; [left; exact X|right; apply in_or_app; left; rewrite Ech in X; exact X]. }
-      destruct (Nat.leb maxcount (List.length b)).
+      destruct (big || Nat.leb maxcount (List.length b)).
       * (* the batch is written *)
         destruct (flush_inv streams s0 (s_ch sm) b wfail pfail A Bb) as [A1 [M1 [Fc [Fn [Fr Fa]]]]].
         destruct (flush streams s0 (s_ch sm) b wfail pfail) as [s1 err] eqn:F. cbn [fst snd] in *.
